@@ -20,6 +20,19 @@ class TrackDict(dict):
         return dict.__getitem__(self, k)
 
 
+class ProbeSeq(SeqV):
+    """sequence formal of a probe: remembers whether its length was read"""
+
+    def __init__(self, s):
+        SeqV.__init__(self, s.a, s.off, s.len, s.elem, s.alt)
+        object.__setattr__(self, 'used_len', False)
+
+    def __getattribute__(self, k):
+        if k == 'len':
+            object.__setattr__(self, 'used_len', True)
+        return object.__getattribute__(self, k)
+
+
 class Verifier(Exec):
     def __init__(self, prog, specs, fname, opts=None, resolver=None):
         Exec.__init__(self, prog, specs, fname, opts)
@@ -256,6 +269,11 @@ class Verifier(Exec):
         raise Unsupported('snapshot of %r' % (v,))
 
     def flatten(self, v, out, fields=None):
+        if isinstance(v, SeqV) and (fields == ('nolen',) or (isinstance(v, ProbeSeq) and fields == set())):
+            out.extend([v.a, v.off])
+            if v.alt is not None:
+                out.append(v.alt)
+            return out
         if isinstance(v, SnapV) and fields is not None:
             for f in self.struct_fields(v.tid):
                 if f['name'] in fields:
@@ -344,13 +362,15 @@ class Verifier(Exec):
         heaps_ = self.specfun_heaps(sf, ev.st)
         fields_ = (self.sf_fields.get(sf.name) if not self.opts.get('allfields') else None) or [None] * len(snaps)
         if fields_ == 'pending':
-            fields_ = [set() if isinstance(s_, SnapV) else None for s_ in snaps]     # recursive call while probing: adds no needs of its own
+            fields_ = [set() if isinstance(s_, (SnapV, ProbeSeq)) else None for s_ in snaps]     # recursive call while probing: adds no needs of its own
         if self.heap_record is not None:
             # probing a caller: the callee's field needs are the caller's needs too
             for s_, fl in zip(snaps, fields_):
                 if isinstance(s_, SnapV) and isinstance(s_.f, TrackDict):
                     for fn_ in (fl if fl is not None else list(s_.f.keys())):
                         s_.f.used.add(fn_)
+                elif isinstance(s_, ProbeSeq) and fl != ('nolen',) and fl != set():
+                    object.__setattr__(s_, 'used_len', True)
         flat = []
         for s_, fl in zip(snaps, fields_):
             self.flatten(s_, flat, fl)
@@ -405,9 +425,11 @@ class Verifier(Exec):
         self.sf_heaps[sf.name] = []          # recursion guard
         self.sf_fields[sf.name] = 'pending'
         formals = [self.formal('probe$%s' % p[0], self.parse_type(p[1])) for p in sf.params]
-        for f_ in formals:
+        for i_, f_ in enumerate(formals):
             if isinstance(f_, SnapV):
                 f_.f = TrackDict(f_.f)
+            elif isinstance(f_, SeqV):
+                formals[i_] = ProbeSeq(f_)
         env = dict((p[0], f) for p, f in zip(sf.params, formals))
         rec = set()
         saved = self.heap_record
@@ -426,7 +448,7 @@ class Verifier(Exec):
             self.ctx.assumptions = saved_assumptions
         hs = sorted(n for n in rec if not n.startswith(('MAP', 'INIT')) and not self.is_global_heap(n))
         self.sf_heaps[sf.name] = hs
-        self.sf_fields[sf.name] = [(set(f_.f.used) if isinstance(f_, SnapV) else None) for f_ in formals]
+        self.sf_fields[sf.name] = [(set(f_.f.used) if isinstance(f_, SnapV) else (('nolen',) if isinstance(f_, ProbeSeq) and not object.__getattribute__(f_, 'used_len') else None)) for f_ in formals]
         if hs:
             self.trusted.discard(None)
         return hs
@@ -1475,6 +1497,14 @@ class Verifier(Exec):
             if isinstance(x, ArrV):
                 self.oblige(st, 'idx', self.cur_detail, and_(le(ZERO, i), lt(i, I(len(x.elems)))))
                 r = self.arr_select(x, i)
+            elif isinstance(x, StrV):
+                self.oblige(st, 'idx', self.cur_detail, and_(le(ZERO, i), lt(i, x.len)))
+                h = self.heap_get(st, 'HS:uint8', arr(ARR_II))
+                self.strlit_bytes_fact(st, x)
+                r = select(select(h, x.arr), add(x.off, i))
+                if r.op not in ('int',):
+                    r = self.ctx.name(ins.get('name', 'b'), r)
+                    self.ctx.assume(and_(le(ZERO, r), le(r, I(255))))
             else:
                 raise Unsupported('Index on %r' % (x,))
         elif op == 'Lookup':
